@@ -520,3 +520,46 @@ def c01_entity_like(c0: int, c1: int) -> bool:
     """
     t = "&" + S(c0, c1) + ";"
     return _ser_text_ok(t) and _ser_attr_ok(t)
+
+
+# ---- e'': the save_to column under every accepted header spelling (round 3) -------------------------------
+SAVETO_HEADERS = ["save_to", "Save_To", "SAVE_TO", "save to", "bind::entities:saveto", "Bind::entities:saveto"]
+
+
+def c01_saveto_header(h: int, has_entities: bool, with_header: bool, in_group: bool, s0: int, s1: int) -> bool:
+    """
+    vpre: 0 <= h <= 5
+    vpre: 97 <= s0 <= 122 and 97 <= s1 <= 122
+    vpost: _ == True
+    """
+    from harness.common import names_violation
+
+    col = SAVETO_HEADERS[h]
+    q = {"type": "text", "name": "q1", "label": "L1", col: S(s0, s1)}
+    rows = [{"type": "begin group", "name": "g", "label": "G"}, q, {"type": "end group"}] if in_group else [q]
+    rows.append({"type": "text", "name": "q2", "label": "L2"})
+    wb = {"survey": rows}
+    if with_header:
+        wb["survey_header"] = [{"type": None, "name": None, "label": None, col: None}]
+    if has_entities:
+        wb["entities"] = [{"dataset": "ds", "label": "a"}]
+    try:
+        survey, _w, _js = build_survey(wb)
+        root = survey.xml()
+    except PyXFormError:
+        return not has_entities  # with an entity declaration a well-formed save_to is accepted under every spelling
+    return names_violation(root) is None
+
+
+specialise(
+    "C01",
+    "e.saveto-header",
+    c01_saveto_header,
+    {"has_entities": [False, True]},
+    timeout=300,
+    kernel=("pyxform.xls2json:workbook_to_json", "pyxform.entities.entities_parsing:validate_entity_saveto", "pyxform.parsing.sheet_headers:dealias_and_group_headers", "pyxform.survey:Survey.get_nsmap", "pyxform.survey:Survey.xml"),
+    shims=("S1", "S2", "S3", "S4"),
+    symbolic="spelling of the save_to column header (symbolic index over 6 accepted spellings incl. letter case, space, the bind:: form), explicit header row present (boolean), question inside a group (boolean), 2-letter property name",
+    bounds="entities sheet present / absent per instance; if the form converts, every prefix in the output is declared (independent QName / prefix check)",
+    weight=40,
+)
